@@ -212,6 +212,9 @@ def run(ctx):
                                  if max_caches else
                                  'maximum-size boundary test has the form %s, not dc_data_size + i >= chunk_auto_max'
                                  % derived), zw.file, zw.line, config=config)
+        # ---- i the chunk-end decision reads nothing that describes this call (sizes of the write calls)
+        from ..rules import segtaint
+        segtaint.check_segmentation_taint(ck, prog, config, 'C16-i', ('zck_end_chunk', ec.name))
         # ---- e ordering fact at comp_init exits
         auto_bounds(ck, prog, config, 'C16-e')
         # ---- h effective maximum never above the configured one
